@@ -203,6 +203,37 @@ Theorem C07_tile_item_translated : forall (ed : string -> Z) vec_len k rag s env
 Proof. exact tile_item_translated. Qed.
 Print Assumptions C07_tile_item_translated.
 
+(* ---- mixed source / observer lists (round 6) ---- *)
+(* the statements of check_format_input_observers and of the block of _getBH_level2 that sums a Collection's rows,
+   translated on this run, are the reviewed ones (a rewrite of either breaks this proof) *)
+Theorem C07_list_statements_reviewed :
+  observers_arith = expected_observers_arith /\ reduce_arith = expected_reduce_arith.
+Proof. exact (conj observers_arith_reviewed reduce_arith_reviewed). Qed.
+Print Assumptions C07_list_statements_reviewed.
+
+(* the slice summed into row src_ind is [src_ind, src_ind + col_len), the deleted one [src_ind + 1, src_ind + col_len)
+   (the bounds of Level2Model.reduce_loop), for all values *)
+Theorem C07_reduce_bounds : forall (i n : Z),
+  let env := fun s => if String.eqb s "src_ind" then Some i else if String.eqb s "col_len" then Some n else None in
+  match get "_getBH_level2" "assign" "B[src_ind]" 0%nat reduce_arith with
+  | PCall _ [PSub (PName "B") (PSlice (Some lo) (Some hi))] _ =>
+      (evalZ env (fun _ => None) lo, evalZ env (fun _ => None) hi)
+  | _ => (None, None) end = (Some i, Some (i + n)) /\
+  match get "_getBH_level2" "assign" "B" 0%nat reduce_arith with
+  | PCall _ [PName "B"; PSub _ (PSlice (Some lo) (Some hi)); PInt 0] _ =>
+      (evalZ env (fun _ => None) lo, evalZ env (fun _ => None) hi)
+  | _ => (None, None) end = (Some (i + 1), Some (i + n)).
+Proof. exact reduce_bounds. Qed.
+Print Assumptions C07_reduce_bounds.
+
+(* the model of the observer list (tied to check_format_input_observers by correspondence on random mixed lists) keeps
+   LIST order: every element contributes its sensors in its own turn *)
+Theorem C07_observer_list_order : forall a b,
+  format_observers (a ++ b) =
+  match format_observers a, format_observers b with Some x, Some y => Some (x ++ y)%list | _, _ => None end.
+Proof. exact format_observers_app. Qed.
+Print Assumptions C07_observer_list_order.
+
 (* ---- functional interface vs object interface: the same rows reach getBH_level1 ----
    PARTIAL: one source class (one group), static poses, plain position observers (no sensor rotation / pixels / paths);
    Level2Model.group_field is builder l2a's model of get_src_dict + getBH_level1 for one group. *)
